@@ -17,6 +17,14 @@ from ..src import Repo, call_name, receiver, walk_no_nested
 CFG_MOD = "config.py"
 
 
+def cfg_mod(repo):
+    """the module that holds config_sleep (wherever the package keeps it)"""
+    for m in repo.all_mods():
+        if "config_sleep" in m.functions:
+            return m
+    return repo.mod(CFG_MOD)
+
+
 def class_members(c):
     return {k for k in c.consts if not k.startswith("__")}
 
@@ -26,7 +34,7 @@ def sleeper_model(ctx, repo, rule="R3"):
     are intercepted - what is waited on, with which timeout, whether the shared future could be cancelled by the wait,
     and what the shared future is afterwards"""
     from ..absint import Interp, Native, Obj, PyRaise, Undecided
-    m = repo.mod(CFG_MOD)
+    m = cfg_mod(repo)
     cs = m.functions.get("config_sleep")
     if cs is None:
         raise AnalysisError("config_sleep vanished")
@@ -149,7 +157,7 @@ def sleeper_model(ctx, repo, rule="R3"):
 
 def check(ctx):
     repo = Repo()
-    m = repo.mod(CFG_MOD)
+    m = cfg_mod(repo)
     ctx.rule("R1", "complete tables: base, active and idle classes define the same member set; CONFIG_MEMBERS is computed from the base class; set_config_mode copies every member of CONFIG_MEMBERS unconditionally from one freshly built table chosen by `active`")
     ctx.rule("R2", "no mixture observable: set_config_mode has no suspension point; the shared future is resolved after the copy loop, guarded by not done()")
     ctx.rule("R3", "sleeper: config_sleep renews the shared future when None or done with no suspension between test and wait; waits on the shared future with timeout = the delay parameter")
@@ -256,7 +264,7 @@ def check(ctx):
                            f"{fi.qual}: the shared ConfigChange future is rebound (`{n.text()}`, L{n.lineno}) while it may still be pending: sleepers blocked on the old future are no longer woken by set_config_mode",
                            loc(fi, n.ast))
     for other in repo.all_mods():
-        if other.rel.endswith("/config.py"):
+        if other is m:
             continue
         for n in ast.walk(other.tree):
             if isinstance(n, ast.Attribute) and n.attr == "ConfigChange" and isinstance(n.ctx, ast.Store):
